@@ -23,6 +23,8 @@ def run(tier, seed):
     _, r3 = run_hex(rep, "A: H7xSL direct", universe="H7", values=("S", "L"), prune=False, props=P)
     run_hex(rep, "A/C: HCxSL batch<=2 (a transient node of the batch equals a node the batch creates elsewhere)", universe="HC", values=("S", "L"),
             prune=False, props=P, batch_len=2, exits=("commit", "abort", "wfail"))
+    run_hex(rep, "A: H3xSL nested batches (a batch opened on the batch trie of a non-pruning trie)", universe="H3", values=("S", "L"), prune=False,
+            props=P, batch_len=1, exits=("commit", "abort"), nested=True)
     from ..alphabet import Labels
     lab = Labels(seed)
     k = lab.keys("H3S")
